@@ -69,7 +69,7 @@ GEN_LIBERTY = dict(module="Gen_Liberty", name="liberty")
 
 
 def run_c05(ctx, C):
-    codec_common(ctx, C, [GEN_CODEC, GEN_LIBERTY, gen_obj("msg", "C05")], [DRV_CODEC], mcs=[MC_OBJ, MC_OBJ_KNOB, MC_SCRATCH, MC_SCRATCH_KNOB])
+    codec_common(ctx, C, [GEN_CODEC, GEN_LIBERTY, gen_obj("msg", "C05"), gen_obj("eap", "C05"), gen_akahist_wire("C05")], [DRV_CODEC], mcs=[MC_OBJ, MC_OBJ_KNOB, MC_SCRATCH, MC_SCRATCH_KNOB])
     C.stage_s3(ctx)
 
 
